@@ -22,6 +22,22 @@ CHECKS = {
         design="4 C20"),
 }
 
+CHECKS["C16"] = dict(
+    level="model_checking",
+    technique="TLA+ spec LibGraph.tla model-checked by TLC (intent ghost invariant); one replayed "
+              "edit history per transition of its state graph executed on a real gdstk Library; "
+              "recorded projections and query results validated by TLC against the spec actions",
+    text="TLC checks that under rename / replace (4 overloads) / remap / add / remove / copy every "
+         "reference of every member cell keeps designating the object its author meant, and that "
+         "top-level, dependency and tag queries equal their graph-theoretic definitions; every "
+         "transition of that state graph (bounded history length) is replayed through the public "
+         "API and the projected graph plus all query results after each call are validated by TLC.",
+    note="Trusted: TLC, the harness projection (pointer identity mapped to object ids). Domain: "
+         "unique member names, replaced objects are not brought back, raw cells needed by other "
+         "raw cells are not replaced. One initial library shape (shared sub-cell, by-name refs to "
+         "cells, raw cells and absent cells, two raw-cell files).",
+    design="4 C16")
+
 NOT_YET = {}
 
 
